@@ -680,9 +680,209 @@ def c12_pairs(driver):
     return mon
 
 
+def vnums(name):
+    ver = name.split('/', 1)[1]
+    parts = ver.split('.')
+    if all(x.isdigit() for x in parts):
+        return tuple(int(x) for x in parts)
+    return None
+
+
+def cascade_problems(w, state):
+    """Independent well-formedness of the destination branches: C01 chain,
+    at most one stabilization per x.y, with its development branch, and not
+    already released (no tag x.y.z' with z' >= z)."""
+    d = dests(state)
+    out = ['%s not in %s' % p for p in chain_breaks(w, d)]
+    t = tags(state)
+    stabs = {}
+    for b in d:
+        if b.startswith('stabilization/'):
+            v = vnums(b)
+            stabs.setdefault(v[:2], []).append(v)
+    for xy, lst in stabs.items():
+        if len(lst) > 1:
+            out.append('two stabilization branches for %d.%d' % xy)
+        if 'development/%d.%d' % xy not in d:
+            out.append('stabilization/%s without development/%d.%d' % (
+                '.'.join(map(str, lst[0])), xy[0], xy[1]))
+        for name in t:
+            tv = name[1:] if name.startswith('v') else name
+            ps = tv.split('.')
+            if len(ps) in (3, 4) and all(x.isdigit() for x in ps):
+                if (int(ps[0]), int(ps[1])) == xy and \
+                        int(ps[2]) >= lst[0][2]:
+                    out.append('stabilization/%s already released (tag %s)'
+                               % ('.'.join(map(str, lst[0])), name))
+    return out
+
+
+def queued_ids(state, version=None):
+    out = []
+    for b in heads(state):
+        if b.startswith('q/w/'):
+            parts = b.split('/')
+            if version is None or parts[3] == version or \
+                    parts[3].startswith(version + '.'):
+                if int(parts[2]) not in out:
+                    out.append(int(parts[2]))
+    return out
+
+
+def c20(driver):
+    """Branch and queue admin jobs keep the repository well-formed or do
+    nothing."""
+    def same_remote(pre, post):
+        return pre['refs'] == post['refs']
+
+    def mon(w, pre, ev, obs, post):
+        kind = ev[0]
+        if kind not in ('create_branch', 'delete_branch', 'rebuild_queues',
+                        'delete_queues'):
+            return [], {}
+        status = obs.get('status')
+        stats = {'c20_jobs': 1, 'c20_%s_%s' % (kind, status): 1}
+        out = []
+        ok = status == 'JobSuccess'
+        h0, h1 = heads(pre), heads(post)
+
+        def bad(fp, msg):
+            out.append({'property': 'C20', 'fingerprint': fp, 'msg':
+                        '%s (event %s, status %s)' % (msg, ev, status)})
+        if kind == 'create_branch':
+            name = ev[1]
+            if not ok:
+                if not same_remote(pre, post):
+                    bad('create-refused-but-changed',
+                        'create_branch refused but the remote changed: %s' %
+                        sorted(set(map(str, post['refs'].items())) ^
+                               set(map(str, pre['refs'].items()))))
+                return out, stats
+            if name not in h1:
+                bad('create-success-no-branch', 'JobSuccess but %s does not '
+                    'exist' % name)
+                return out, stats
+            probs = cascade_problems(w, post)
+            if probs and not cascade_problems(w, pre):
+                bad('create-breaks-cascade:%s' % name,
+                    'created %s but the repository is now ill-formed: %s' % (
+                        name, probs))
+            ver = name.split('/', 1)[1]
+            if ver in tags(pre):
+                bad('create-archived:%s' % name,
+                    '%s was created although archive tag %s exists' % (
+                        name, ver))
+            if driver.config.queue and name.startswith('development/') and \
+                    queued_ids(pre):
+                newest = max((dest_sort_key(b) for b in dests(pre)
+                              if b.startswith('development/')))
+                if dest_sort_key(name) < newest:
+                    bad('create-older-with-queued-prs:%s' % name,
+                        '%s (older than the newest development branch) was '
+                        'created while pull requests %s are queued' % (
+                            name, queued_ids(pre)))
+            extra = {b for b in h1 if b not in h0 and b != name and
+                     not b.startswith('q/')}
+            if extra:
+                bad('create-extra-refs', 'create_branch also created %s' %
+                    sorted(extra))
+        elif kind == 'delete_branch':
+            name = ev[1]
+            if name not in h0:
+                if not same_remote(pre, post):
+                    bad('delete-missing-changed', 'delete of a missing '
+                        'branch changed the remote')
+                return out, stats
+            ver = name.split('/', 1)[1]
+            has_queued = bool(driver.config.queue and queued_ids(pre, ver))
+            has_stab = name.startswith('development/') and any(
+                b.startswith('stabilization/' + ver + '.') for b in h0)
+            archived = (not name.startswith('hotfix/')) and ver in tags(pre)
+            must_refuse = has_queued or has_stab
+            if ok:
+                tname = ver + '.archived_hotfix_branch' \
+                    if name.startswith('hotfix/') else ver
+                t1 = tags(post)
+                if must_refuse:
+                    bad('delete-should-refuse:%s' % name,
+                        '%s deleted although %s' % (
+                            name, 'pull requests are queued on it'
+                            if has_queued else 'its stabilization branch '
+                            'is alive'))
+                if name in h1:
+                    bad('delete-success-still-there', '%s still exists' %
+                        name)
+                if tname not in t1 or w.git(
+                        'rev-parse', t1[tname] + '^{commit}') != h0[name]:
+                    bad('delete-no-archive-tag:%s' % name,
+                        '%s deleted without archive tag %s on its tip' % (
+                            name, tname))
+                others = {b for b in set(h0) | set(h1)
+                          if h0.get(b) != h1.get(b) and b != name and
+                          b != 'q/' + ver}
+                if others:
+                    bad('delete-touches-others', 'delete_branch also '
+                        'changed %s' % sorted(others))
+            else:
+                if not same_remote(pre, post):
+                    bad('delete-refused-but-changed:%s' % name,
+                        'delete_branch refused but the remote changed: %s'
+                        % sorted(set(map(str, post['refs'].items())) ^
+                                 set(map(str, pre['refs'].items()))))
+                if not must_refuse and not archived:
+                    bad('delete-refused-without-reason:%s' % (
+                        'queue-branch-exists' if 'q/' + ver in h0
+                        else name),
+                        '%s has no queued pull request and no live '
+                        'stabilization branch but delete_branch refused '
+                        '(%s)' % (name, obs.get('details')))
+        else:
+            removed = set(h0) - set(h1)
+            changed = {b for b in h1 if h0.get(b) != h1[b]}
+            if any(not b.startswith('q/') for b in removed | changed) or \
+                    tags(pre) != tags(post):
+                bad('queue-job-touches-others',
+                    '%s changed refs outside q/*: %s' % (
+                        kind, sorted(b for b in removed | changed
+                                     if not b.startswith('q/'))))
+            if ok and driver.config.queue and any(
+                    b.startswith('q/') for b in h1):
+                bad('queue-job-left-queues', '%s left %s' % (
+                    kind, sorted(b for b in h1 if b.startswith('q/'))))
+            if kind == 'rebuild_queues' and ok:
+                want = queued_ids(pre)
+                got = [d[1] for d in post['pending']
+                       if d[0] == 'PullRequestJob']
+                if sorted(got) != sorted(want) or \
+                        len(post['pending']) != len(got):
+                    bad('rebuild-wrong-jobs', 'rebuild_queues re-submitted '
+                        '%s, queued pull requests were %s' % (
+                            post['pending'], want))
+                else:
+                    # queue order = order of entry (by ancestry of the
+                    # queue commits on a shared version)
+                    for i, a in enumerate(got):
+                        for b in got[i + 1:]:
+                            qa = [r for r in h0 if r.startswith(
+                                'q/w/%d/' % a)]
+                            qb = [r for r in h0 if r.startswith(
+                                'q/w/%d/' % b)]
+                            for ra in qa:
+                                for rb in qb:
+                                    if ra.split('/')[3] == rb.split('/')[3] \
+                                            and h0[ra] != h0[rb] and \
+                                            w.is_ancestor(h0[rb], h0[ra]):
+                                        bad('rebuild-wrong-order',
+                                            'rebuild_queues re-submitted '
+                                            '%d before %d, which entered '
+                                            'the queue first' % (a, b))
+        return out, stats
+    return mon
+
+
 def driver_history(w, driver):
     return []
 
 
 REGISTRY = {'c01': c01, 'c03': c03, 'c06': c06, 'c08': c08, 'c19': c19,
-            'c15': c15, 'c12': c12, 'c12_pairs': c12_pairs}
+            'c15': c15, 'c12': c12, 'c12_pairs': c12_pairs, 'c20': c20}
